@@ -626,6 +626,10 @@ def check(prog, rep):
     from ..rules_own import memo_rule
 
     memo_rule(prog, rep, rule="MEMO")
+    # durations are summed through Event.duration: `+=` stores through the setter, which must store what it is given
+    from .c13 import duration_dispatch
+
+    duration_dispatch(prog, rep)
 
 
 VARIANTS = [
